@@ -142,7 +142,9 @@ where
     Traits: ?Sized + Trait, 
     M: MemBuilder,
     IterItem: IteratorItem<'a, AnyVecPtr<Traits, M>>,
-    AnyVec<Traits, M>: Send
+    AnyVec<Traits, M>: Send,
+    // shared iterator (IterRef) yields shared handles - Send only if they are.
+    IterItem::Item: Send
 {}
 #[allow(renamed_and_removed_lints, suspicious_auto_trait_impls)]
 unsafe impl<'a, T, M, IterItem> Send
@@ -201,7 +203,7 @@ impl<'a, Traits: ?Sized + Trait, M: MemBuilder> IteratorItem<'a, AnyVecPtr<Trait
 
     #[inline]
     fn element_to_item(element: ElementPointer<'a, AnyVecPtr<Traits, M>>) -> Self::Item {
-        ElementRef(ManuallyDrop::new(element))
+        ElementRef(ManuallyDrop::new(element), PhantomData)
     }
 }
 impl<'a, Traits: ?Sized + Trait, M: MemBuilder> Clone for ElementRefIterItem<'a, Traits, M>{
